@@ -1,9 +1,21 @@
 import PyamgV.Driver.Util
+import PyamgV.Model.ExtC12ZBal
+/-! Driver ops of extension task E56, part 1: the hypotheses of `every_pass_final` / `cluster_final` in checkable form.
 
+* `ext_c12z_sym n ap aj ax` -> `1` / `0`: the sparsity pattern is symmetric (`C12ZB.symEB`, the Boolean form of `SymE`:
+  `symE_of_bool`)
+* `ext_c12z_grid n ap aj ax h tol` -> `1` / `0`: every weight is a positive multiple of `h`, `>= tol`, and `2 tol < h`
+  (`C12ZB.gridB`: `grid_of_bool`) -/
 namespace PyamgV.Drv.ExtC12ZBal
+open PyamgV PyamgV.Drv
 
-/-- line-protocol ops of extension E56, part Bal -/
+def flag (b : Bool) : String := if b then "1" else "0"
+
 def handle : List String → Option String
+  | ["ext_c12z_sym", n, ap, aj, ax] =>
+    some (flag (C12ZB.symEB ⟨nat n, parseNats ap, parseNats aj, parseRats ax⟩))
+  | ["ext_c12z_grid", n, ap, aj, ax, h, tol] =>
+    some (flag (C12ZB.gridB ⟨nat n, parseNats ap, parseNats aj, parseRats ax⟩ (parseRat h) (parseRat tol)))
   | _ => none
 
 end PyamgV.Drv.ExtC12ZBal
